@@ -449,6 +449,14 @@ def Sh.curved : Sh → Bool
   | .cylinder .. => true
   | .round .. => true
   | _ => false
+/-- support maps with a curved boundary: when such a shape is handed to GJK directly (the `*_with_params` histories; the
+dispatcher never sends a ball through GJK) the iteration converges only asymptotically and the fallback exits stop at about
+`1e-5` relative precision — the history oracles use ten times the tolerance for them -/
+def Sh.gjkCurved : Sh → Bool
+  | .ball _ => true
+  | .capsule .. => true
+  | s => s.curved
+def gjkTolScale (A B : Placed) : Rat := if A.sh.gjkCurved || B.sh.gjkCurved then 10 else 1
 def slackTolFor (A B : Placed) : Rat := tolFor A B * (if A.sh.curved || B.sh.curved then 10 else 1)
 
 /-- all the independent knowledge about the true distance: exact closed form (half-space pairs), certified hint
@@ -480,8 +488,9 @@ def robustCrossing (A B : Placed) : Bool :=
   | _, _ => false
 
 /-- verdict on a `closest_points` answer -/
-def judgeCP (A B : Placed) (maxDist : Rat) (res : Res) (hints : List Res) (extraPts : List Q3) (planar : Bool := false) : String :=
-  let tol := tolFor A B
+def judgeCP (A B : Placed) (maxDist : Rat) (res : Res) (hints : List Res) (extraPts : List Q3) (planar : Bool := false)
+    (tolScale : Rat := 1) : String :=
+  let tol := tolFor A B * tolScale
   let route := s!"route={A.sh.kind}x{B.sh.kind}"
   let kn := knowledge A B hints extraPts planar
   match res with
@@ -526,8 +535,9 @@ def judgeCP (A B : Placed) (maxDist : Rat) (res : Res) (hints : List Res) (extra
           | none => "skip no-certificate"
 
 /-- verdict on a `distance` answer -/
-def judgeDist (A B : Placed) (x : Rat) (hints : List Res) (extraPts : List Q3) (planar : Bool := false) : String :=
-  let tol := tolFor A B
+def judgeDist (A B : Placed) (x : Rat) (hints : List Res) (extraPts : List Q3) (planar : Bool := false)
+    (tolScale : Rat := 1) : String :=
+  let tol := tolFor A B * tolScale
   let route := s!"route={A.sh.kind}x{B.sh.kind}"
   let kn := knowledge A B hints extraPts planar
   if x < 0 then s!"fail {route} negative-distance" else
